@@ -220,6 +220,14 @@ def impl(case):
         objs.append(r)
         calls.append(_snapshot(case, r))
     again = [_snapshot(case, r) for r in objs]
+    # the PUBLIC per-topology path on a second extractor: count_edge_types() + get_ejk(i, name), asked three times
+    # (counted, asked again without recounting, recounted) -- every answer must be the same matrices
+    X2 = JointExcessJointDegree({ToolsNames.NETWORK: G, ToolsNames.EDGE_NAMES: list(case["names"])})
+    direct = []
+    for rnd in range(3):
+        if rnd != 1:
+            X2.count_edge_types()
+        direct.append([[i, _dict_obs(X2.get_ejk(i, name))] for i, name in enumerate(case["names"])])
     last = objs[-1]
     xk = [[case["names"].index(name), sorted(list(k) for k in last.excess_degree_keys[name])]
           for name in last.excess_degree_keys]
@@ -240,7 +248,7 @@ def impl(case):
         G.add_edge(u, v)
         G.edges[u, v].update(data)
     plain = _dict_obs(JointExcessDegree.get_ejk(G))
-    return {"calls": calls, "again": again, "xkeys": xk, "xkeys_dups": xk_dups, "plain": plain,
+    return {"calls": calls, "again": again, "direct": direct, "xkeys": xk, "xkeys_dups": xk_dups, "plain": plain,
             "tnames": list(last.topology_names)}
 
 
@@ -284,10 +292,11 @@ def compare(case, io, mo):
         return f"model failed: {mo}"
     if io["tnames"] != case["names"]:
         return f"topology_names {io['tnames']}"
-    for tag in ("calls", "again"):
-        if len(io[tag]) != len(mo["calls"]):
+    for tag in ("calls", "again", "direct"):
+        ref = mo["calls"] if tag != "direct" else [mo["calls"][0]] * len(io[tag])
+        if len(io[tag]) != len(ref):
             return f"{tag}: {len(io[tag])} results, model {len(mo['calls'])}"
-        for ci, (a, b) in enumerate(zip(io[tag], mo["calls"])):
+        for ci, (a, b) in enumerate(zip(io[tag], ref)):
             if [n for n, _ in a] != [n for n, _ in b]:
                 return f"{tag}[{ci}]: topologies impl {[n for n, _ in a]} model {[n for n, _ in b]}"
             for (n, da), (_, db) in zip(a, b):
@@ -311,7 +320,7 @@ def _valid(case):
 def check_calls(case, io):
     if core.is_exc(io) or not _valid(case):
         return []
-    return [("c13_check", _net_tree(case) + [EPS, io["calls"] + io["again"], io["xkeys"], io["plain"]])]
+    return [("c13_check", _net_tree(case) + [EPS, io["calls"] + io["again"] + io["direct"], io["xkeys"], io["plain"]])]
 
 
 def check_verdict(case, io, raws):
